@@ -2,7 +2,7 @@ package ledger
 
 // C08 — Ledger queries answer from the block history, not from flush timing.
 //
-// Engine E-SEQ over the LH driver (verif_c08_driver_test.go): BFS over every sequence of
+// Engine E-SEQ over the LH driver (common_c08_driver_test.go): BFS over every sequence of
 //
 //	block ops   u+ / u~ / u-   create / modify / delete, in one block, the "user" resources:
 //	                           account C (funded / paid / closed), B's holding of asset X
@@ -44,6 +44,7 @@ package ledger
 
 import (
 	"fmt"
+	"os"
 	"sync/atomic"
 	"testing"
 	"time"
@@ -72,20 +73,73 @@ var c08OpNames = []string{"u+", "u~", "u-", "o+", "o~", "o-", "pay", "flush1", "
 
 type c08Variant struct {
 	cfg     c08Cfg
-	present bool // initial state: user+owner resources already exist
+	present bool   // initial state: user+owner resources already exist
+	alpha   string // name of the op subset
+	mask    uint   // allowed ops
+	policy  int    // when the sweep runs along a path
 }
 
+// Sweep policies. Lookups have side effects on the LRU caches (pending writes, not-found
+// marks), so WHEN a client queries is part of the explored behaviour:
+//   - c08SweepAlways: after every op (a client that queries all the time);
+//   - c08SweepBlocks: after block ops only - flushes and reloads are invisible to clients,
+//     so nothing is looked up between a flush and the next block (this is what leaves stale
+//     pending cache writes around when the next block arrives);
+//   - c08SweepEnd: never along the path.
+//
+// Under every policy the state reached by the LAST op is swept (Seq.Final, on the instance
+// that is then discarded), so every reachable state is checked. With the LRU caches off
+// lookups are side-effect free and c08SweepEnd explores exactly the same states as the
+// other two, cheaper.
+const (
+	c08SweepAlways = iota
+	c08SweepBlocks
+	c08SweepEnd
+)
+
+var c08PolicyNames = []string{"sweep-always", "sweep-after-blocks", "sweep-at-end"}
+
+func c08Mask(ops ...int) uint {
+	var m uint
+	for _, o := range ops {
+		m |= 1 << uint(o)
+	}
+	return m
+}
+
+var (
+	c08AlphaUser  = c08Mask(c08OpUCreate, c08OpUModify, c08OpUDelete, c08OpPay, c08OpFlushMax, c08OpReload)
+	c08AlphaOwner = c08Mask(c08OpOCreate, c08OpOModify, c08OpODelete, c08OpPay, c08OpFlushMax, c08OpReload)
+	c08AlphaFull  = uint(1<<c08NumOps - 1)
+)
+
+// c08Sys is one explored instance. Apply only advances a cheap shadow model (which ops
+// are enabled is a function of it); the ledger is opened and the accepted ops are executed
+// (each followed by the full sweep) when the engine asks for the invariant / the key. A
+// disabled op therefore costs nothing, and a prefix is executed once per explored path.
 type c08Sys struct {
-	v        c08Variant
+	w  *c08World
+	v  c08Variant
+	r  *ve.Run
+	tm *c08Timers
+
+	// shadow model
+	shLatest, shDB basics.Round
+	shUser, shOwn  bool
+	ops            []int
+
+	// materialised part
+	done     int  // ops[:done] were executed on the ledger
+	swept    bool // the sweep ran after the last executed op
 	h        *c08LH
 	asset    basics.AssetIndex // X
 	app      basics.AppIndex   // P
 	ownAsset basics.AssetIndex // live Y (0: none)
 	ownApp   basics.AppIndex   // live Q
-	bad      error
+	bad      error             // first violation / harness error (sticky)
 }
 
-type c08Timers struct{ newNs, opNs, sweepNs, news, ops, sweeps atomic.Int64 }
+type c08Timers struct{ newNs, opNs, sweepNs, news, ops, sweeps, queries atomic.Int64 }
 
 const c08BoxName = "k"
 
@@ -99,9 +153,6 @@ func (s *c08Sys) blockTxns(op int) []*txntest.Txn {
 	v := c08Val(s.h.NextRound())
 	switch op {
 	case c08OpUCreate:
-		if s.userPresent() {
-			return nil
-		}
 		return []*txntest.Txn{
 			w.txPay(w.A, w.C, 5_000_000),
 			w.txAssetXfer(w.B, w.B, s.asset, 0),
@@ -110,9 +161,6 @@ func (s *c08Sys) blockTxns(op int) []*txntest.Txn {
 			w.txBoxPut(w.A, s.app, c08BoxName, v),
 		}
 	case c08OpUModify:
-		if !s.userPresent() {
-			return nil
-		}
 		return []*txntest.Txn{
 			w.txPay(w.A, w.C, 1_000_000),
 			w.txAssetXfer(w.A, w.B, s.asset, 1),
@@ -120,9 +168,6 @@ func (s *c08Sys) blockTxns(op int) []*txntest.Txn {
 			w.txBoxPut(w.A, s.app, c08BoxName, v),
 		}
 	case c08OpUDelete:
-		if !s.userPresent() {
-			return nil
-		}
 		return []*txntest.Txn{
 			w.txClose(w.C, w.A),
 			w.txAssetCloseOut(w.B, w.A, s.asset),
@@ -130,14 +175,8 @@ func (s *c08Sys) blockTxns(op int) []*txntest.Txn {
 			w.txBoxDel(w.A, s.app, c08BoxName),
 		}
 	case c08OpOCreate:
-		if s.ownAsset != 0 {
-			return nil
-		}
 		return []*txntest.Txn{w.txAssetCreate(w.A, "y"), w.txAppCreate(w.A)}
 	case c08OpOModify:
-		if s.ownAsset == 0 {
-			return nil
-		}
 		reserve := w.B
 		if cur := s.h.Cur().res[c08ResKey{w.A, basics.CreatableIndex(s.ownAsset), basics.AssetCreatable}]; cur.AssetParams != nil && cur.AssetParams.Reserve == w.B {
 			reserve = w.A
@@ -147,9 +186,6 @@ func (s *c08Sys) blockTxns(op int) []*txntest.Txn {
 			w.txAppCall(w.A, s.ownApp, transactions.NoOpOC, []byte("gset"), v),
 		}
 	case c08OpODelete:
-		if s.ownAsset == 0 {
-			return nil
-		}
 		return []*txntest.Txn{
 			w.txAssetDestroy(w.A, s.ownAsset),
 			w.txAppCall(w.A, s.ownApp, transactions.DeleteApplicationOC),
@@ -160,7 +196,72 @@ func (s *c08Sys) blockTxns(op int) []*txntest.Txn {
 	return nil
 }
 
-// counter returns the id the next created asset/app will get (TxnCounter of the latest block + position).
+func (s *c08Sys) shMaxFlush() basics.Round {
+	return s.shLatest.SubSaturate(basics.Round(s.v.cfg.Lookback))
+}
+
+// apply is the engine's Apply: shadow model only.
+func (s *c08Sys) apply(op int) (bool, error) {
+	if s.v.mask&(1<<uint(op)) == 0 {
+		return false, nil
+	}
+	switch op {
+	case c08OpUCreate:
+		if s.shUser {
+			return false, nil
+		}
+		s.shUser = true
+		s.shLatest++
+	case c08OpUModify:
+		if !s.shUser {
+			return false, nil
+		}
+		s.shLatest++
+	case c08OpUDelete:
+		if !s.shUser {
+			return false, nil
+		}
+		s.shUser = false
+		s.shLatest++
+	case c08OpOCreate:
+		if s.shOwn {
+			return false, nil
+		}
+		s.shOwn = true
+		s.shLatest++
+	case c08OpOModify:
+		if !s.shOwn {
+			return false, nil
+		}
+		s.shLatest++
+	case c08OpODelete:
+		if !s.shOwn {
+			return false, nil
+		}
+		s.shOwn = false
+		s.shLatest++
+	case c08OpPay:
+		s.shLatest++
+	case c08OpFlush1:
+		if s.shDB+1 >= s.shMaxFlush() { // == MaxFlush is flushMax
+			return false, nil
+		}
+		s.shDB++
+	case c08OpFlushMax:
+		if s.shMaxFlush() <= s.shDB {
+			return false, nil
+		}
+		s.shDB = s.shMaxFlush()
+	case c08OpReload:
+		if s.shMaxFlush() > s.shDB {
+			s.shDB = s.shMaxFlush()
+		}
+	}
+	s.ops = append(s.ops, op)
+	return true, nil
+}
+
+// nextID returns the id the pos-th transaction of the next block gets if it creates something.
 func (s *c08Sys) nextID(pos int) uint64 {
 	hdr, err := s.h.l.BlockHdr(s.h.l.Latest())
 	if err != nil {
@@ -169,120 +270,178 @@ func (s *c08Sys) nextID(pos int) uint64 {
 	return hdr.TxnCounter + uint64(pos)
 }
 
-func (s *c08Sys) apply(op int, tm *c08Timers) (bool, error) {
-	if s.bad != nil {
-		return true, s.bad
-	}
+// exec performs one op on the real ledger and runs the sweep.
+func (s *c08Sys) exec(op int) error {
 	t0 := time.Now()
 	var en bool
 	var err error
 	switch op {
 	case c08OpFlush1:
-		if s.h.dbRound+1 >= s.h.MaxFlush() { // == MaxFlush is flushMax
-			return false, nil
-		}
 		en, err = s.h.Flush(s.h.dbRound + 1)
 	case c08OpFlushMax:
 		en, err = s.h.Flush(s.h.MaxFlush())
 	case c08OpReload:
 		en, err = true, s.h.Reload()
 	default:
-		txs := s.blockTxns(op)
-		if txs == nil {
-			return false, nil
-		}
 		id1, id2 := s.nextID(1), s.nextID(2)
-		en, err = s.h.AddBlock(txs...)
-		if err == nil && !en {
-			return true, ve.Violationf("C08:harness", "harness: evaluator rejected the %s block although the model enabled it", c08OpNames[op])
-		}
-		if err == nil {
+		en, err = s.h.AddBlock(s.blockTxns(op)...)
+		if err == nil && en {
 			switch op {
 			case c08OpOCreate:
 				s.ownAsset, s.ownApp = basics.AssetIndex(id1), basics.AppIndex(id2)
 				if c, ok := s.h.Cur().creator[basics.CreatableIndex(id1)]; !ok || c.ctype != basics.AssetCreatable {
-					return true, ve.Violationf("C08:harness", "harness: predicted asset id %d not created", id1)
+					err = ve.Violationf("C08:harness", "harness: predicted asset id %d not created", id1)
 				}
 				if c, ok := s.h.Cur().creator[basics.CreatableIndex(id2)]; !ok || c.ctype != basics.AppCreatable {
-					return true, ve.Violationf("C08:harness", "harness: predicted app id %d not created", id2)
+					err = ve.Violationf("C08:harness", "harness: predicted app id %d not created", id2)
 				}
 			case c08OpODelete:
 				s.ownAsset, s.ownApp = 0, 0
 			}
 		}
 	}
-	if tm != nil {
-		tm.opNs.Add(int64(time.Since(t0)))
-		tm.ops.Add(1)
+	if err == nil && !en {
+		err = ve.Violationf("C08:harness", "harness: op %s enabled in the shadow model but refused by the ledger/evaluator", c08OpNames[op])
 	}
-	if err != nil || !en {
-		return en, err
+	s.tm.opNs.Add(int64(time.Since(t0)))
+	s.tm.ops.Add(1)
+	if err != nil {
+		return err
 	}
-	t1 := time.Now()
-	err = s.h.Sweep()
-	if tm != nil {
-		tm.sweepNs.Add(int64(time.Since(t1)))
-		tm.sweeps.Add(1)
+	s.swept = false
+	if s.v.policy == c08SweepAlways || (s.v.policy == c08SweepBlocks && op < c08OpFlush1) {
+		return s.sweep()
 	}
-	return true, err
+	return nil
 }
 
-// c08NewSys opens a ledger and runs the setup: round 1 creates asset X and app P (both by
-// A) and funds P's account (box minimum balance); in the "present" variant round 2 runs u+
-// and o+. The sweep runs after each setup block as well.
-func c08NewSys(w *c08World, v c08Variant, tm *c08Timers) *c08Sys {
+func (s *c08Sys) sweep() error {
+	t1 := time.Now()
+	err := s.h.Sweep()
+	s.tm.sweepNs.Add(int64(time.Since(t1)))
+	s.tm.sweeps.Add(1)
+	s.swept = true
+	return err
+}
+
+// final is the engine's Final: the state about to be discarded is swept if the policy did
+// not already do so.
+func (s *c08Sys) final() error {
+	if err := s.materialize(); err != nil {
+		return err
+	}
+	if s.swept {
+		return nil
+	}
+	s.bad = s.sweep()
+	return s.bad
+}
+
+// setup opens the ledger: round 1 creates asset X and app P (both by A) and funds P's
+// account (box minimum balance); in the "present" variant rounds 2 and 3 run u+ and o+.
+// The sweep runs after each setup block as well.
+func (s *c08Sys) setup() error {
 	t0 := time.Now()
-	s := &c08Sys{v: v}
-	h, err := c08Open(w, v.cfg)
+	h, err := c08Open(s.w, s.v.cfg)
 	if err != nil {
-		s.bad = ve.Violationf("C08:harness", "harness: OpenLedger: %v", err)
-		return s
+		return ve.Violationf("C08:harness", "harness: OpenLedger: %v", err)
 	}
 	s.h = h
-	fail := func(f string, a ...any) *c08Sys {
-		s.bad = ve.Violationf("C08:harness", "harness setup: "+f, a...)
-		return s
+	h.NoXType = c08NoXType
+	h.Finding = func(key, msg string) {
+		s.r.Report(key, fmt.Sprintf("[%s] after ops %v: %s", s.name(), s.opNames(s.done+1), msg),
+			map[string]any{"engine": "seq", "harness": s.name(), "ops": s.ops[:min(s.done+1, len(s.ops))]})
 	}
+	w := s.w
 	id1, id2 := s.nextID(1), s.nextID(2)
 	s.asset, s.app = basics.AssetIndex(id1), basics.AppIndex(id2)
 	en, err := h.AddBlock(w.txAssetCreate(w.A, "x"), w.txAppCreate(w.A), w.txPay(w.A, s.app.Address(), 1_000_000))
 	if err != nil || !en {
-		return fail("setup block: enabled=%v err=%v", en, err)
+		return ve.Violationf("C08:harness", "harness: setup block: enabled=%v err=%v", en, err)
 	}
 	if c, ok := h.Cur().creator[basics.CreatableIndex(id1)]; !ok || c.ctype != basics.AssetCreatable {
-		return fail("asset id %d not created", id1)
+		return ve.Violationf("C08:harness", "harness: asset id %d not created", id1)
 	}
 	if c, ok := h.Cur().creator[basics.CreatableIndex(id2)]; !ok || c.ctype != basics.AppCreatable {
-		return fail("app id %d not created", id2)
+		return ve.Violationf("C08:harness", "harness: app id %d not created", id2)
 	}
-	if err := h.Sweep(); err != nil {
-		s.bad = err
-		return s
+	if s.v.policy != c08SweepEnd {
+		if err := s.sweep(); err != nil {
+			return err
+		}
 	}
-	if v.present {
+	if s.v.present {
 		for _, op := range []int{c08OpUCreate, c08OpOCreate} {
-			if en, err := s.apply(op, nil); err != nil || !en {
-				if err == nil {
-					err = fmt.Errorf("op %s not enabled", c08OpNames[op])
-				}
-				s.bad = err
-				return s
+			if err := s.exec(op); err != nil {
+				return err
 			}
 		}
 	}
-	if tm != nil {
-		tm.newNs.Add(int64(time.Since(t0)))
-		tm.news.Add(1)
+	s.tm.newNs.Add(int64(time.Since(t0)))
+	s.tm.news.Add(1)
+	return nil
+}
+
+func (s *c08Sys) name() string {
+	return fmt.Sprintf("ledger/%s/%s/%s/%s", s.v.cfg.Name, map[bool]string{false: "absent", true: "present"}[s.v.present], s.v.alpha, c08PolicyNames[s.v.policy])
+}
+
+func (s *c08Sys) opNames(n int) []string {
+	var out []string
+	for i := 0; i < n && i < len(s.ops); i++ {
+		out = append(out, c08OpNames[s.ops[i]])
+	}
+	return out
+}
+
+// materialize brings the real ledger up to the shadow model; returns the first violation.
+func (s *c08Sys) materialize() error {
+	if s.bad != nil {
+		return s.bad
+	}
+	if s.h == nil {
+		if s.bad = s.setup(); s.bad != nil {
+			return s.bad
+		}
+	}
+	for s.done < len(s.ops) {
+		if s.bad = s.exec(s.ops[s.done]); s.bad != nil {
+			return s.bad
+		}
+		s.done++
+	}
+	if s.h.Latest() != s.shLatest || s.h.dbRound != s.shDB || s.userPresent() != s.shUser || (s.ownAsset != 0) != s.shOwn {
+		s.bad = ve.Violationf("C08:harness", "harness: shadow model (latest %d db %d user %v own %v) diverged from the ledger (latest %d db %d user %v own %v)",
+			s.shLatest, s.shDB, s.shUser, s.shOwn, s.h.Latest(), s.h.dbRound, s.userPresent(), s.ownAsset != 0)
+	}
+	return s.bad
+}
+
+func c08NewSys(w *c08World, v c08Variant, r *ve.Run, tm *c08Timers) *c08Sys {
+	s := &c08Sys{w: w, v: v, r: r, tm: tm, shLatest: 1}
+	if v.present {
+		s.shLatest, s.shUser, s.shOwn = 3, true, true
 	}
 	return s
 }
 
 func (s *c08Sys) key() string {
-	if s.bad != nil {
-		return "bad:" + s.bad.Error()
+	if err := s.materialize(); err != nil {
+		return "bad:" + err.Error()
 	}
-	return fmt.Sprintf("%s/%v/%d/%d/%s", s.v.cfg.Name, s.v.present, s.ownAsset, s.ownApp, s.h.Key())
+	return fmt.Sprintf("%v/%d/%d/%s", s.v.present, s.ownAsset, s.ownApp, s.h.Key())
 }
+
+func (s *c08Sys) close() {
+	if s.h != nil {
+		s.tm.queries.Add(s.h.queries)
+		s.h.Close()
+	}
+}
+
+// c08NoXType: development switch (VERIF_C08_NO_XTYPE=1) that leaves cross-type resource
+// lookups out of the sweep (see finding C08-cross-type-resource-lookup).
+var c08NoXType = os.Getenv("VERIF_C08_NO_XTYPE") == "1"
 
 func TestVerif_C08(t *testing.T) {
 	r := ve.NewRun("C08", "model_checking")
@@ -290,62 +449,111 @@ func TestVerif_C08(t *testing.T) {
 	if err != nil {
 		t.Fatalf("harness: %v", err)
 	}
-	cfgs := []c08Cfg{
-		{Name: "lru-lb0", Lookback: 0, NoCache: false},
-		{Name: "lru-lb2", Lookback: 2, NoCache: false},
-		{Name: "nolru-lb0", Lookback: 0, NoCache: true},
-		{Name: "nolru-lb2", Lookback: 2, NoCache: true},
+	lruS0 := c08Cfg{Name: "lru-lb0", Lookback: 0, LRU: c08LRUSmall}
+	lruS2 := c08Cfg{Name: "lru-lb2", Lookback: 2, LRU: c08LRUSmall}
+	off0 := c08Cfg{Name: "nolru-lb0", Lookback: 0, LRU: c08LRUOff}
+	off2 := c08Cfg{Name: "nolru-lb2", Lookback: 2, LRU: c08LRUOff}
+	real0 := c08Cfg{Name: "reallru-lb0", Lookback: 0, LRU: c08LRUReal}
+	real2 := c08Cfg{Name: "reallru-lb2", Lookback: 2, LRU: c08LRUReal}
+	type expl struct {
+		cfg     c08Cfg
+		alpha   string
+		mask    uint
+		depth   int
+		present []bool
+		policy  int
 	}
-	depth := ve.Pick(5, 7)
+	both := []bool{true, false}
+	var plan []expl
+	add := func(cfgs []c08Cfg, alpha string, mask uint, depth int, present []bool, policy int) {
+		for _, c := range cfgs {
+			plan = append(plan, expl{c, alpha, mask, depth, present, policy})
+		}
+	}
+	lru := []c08Cfg{lruS0, lruS2}
+	off := []c08Cfg{off0, off2}
+	realLRU := []c08Cfg{real0, real2}
+	userOwner := c08AlphaUser | c08AlphaOwner
+	if !ve.Thorough() {
+		// interleaved full alphabet to depth 3; split alphabets (no flush1) to depth 5;
+		// upstream-sized LRU buffers (0.5-1 s per OpenLedger/reload) to depth 2
+		add(lru, "full", c08AlphaFull, 3, both, c08SweepAlways)
+		add(lru, "full", c08AlphaFull, 3, both, c08SweepBlocks)
+		add(off, "full", c08AlphaFull, 3, both, c08SweepEnd)
+		add(lru, "user", c08AlphaUser, 5, both, c08SweepBlocks)
+		add(lru, "owner", c08AlphaOwner, 5, both, c08SweepBlocks)
+		add(lru, "user", c08AlphaUser, 5, both, c08SweepAlways)
+		add(lru, "owner", c08AlphaOwner, 5, both, c08SweepAlways)
+		add(off, "user", c08AlphaUser, 5, both, c08SweepEnd)
+		add(off, "owner", c08AlphaOwner, 5, both, c08SweepEnd)
+		add(realLRU, "user+owner", userOwner, 2, []bool{true}, c08SweepAlways)
+	} else {
+		add(lru, "user", c08AlphaUser|1<<c08OpFlush1, 6, both, c08SweepBlocks)
+		add(lru, "owner", c08AlphaOwner|1<<c08OpFlush1, 6, both, c08SweepBlocks)
+		add(lru, "user", c08AlphaUser|1<<c08OpFlush1, 6, both, c08SweepAlways)
+		add(lru, "owner", c08AlphaOwner|1<<c08OpFlush1, 6, both, c08SweepAlways)
+		add(off, "user", c08AlphaUser|1<<c08OpFlush1, 6, both, c08SweepEnd)
+		add(off, "owner", c08AlphaOwner|1<<c08OpFlush1, 6, both, c08SweepEnd)
+		add(realLRU, "user+owner", userOwner, 3, []bool{true}, c08SweepAlways)
+		add(lru, "full", c08AlphaFull, 5, both, c08SweepBlocks)
+		add(lru, "full", c08AlphaFull, 5, both, c08SweepAlways)
+		add(off, "full", c08AlphaFull, 5, both, c08SweepEnd)
+		add(lru, "user", c08AlphaUser, 7, []bool{true}, c08SweepBlocks)
+		add(lru, "owner", c08AlphaOwner, 7, []bool{true}, c08SweepBlocks)
+	}
+	maxDepth := 0
 	var cov ve.Coverage
 	cov.Exhaustive = true
 	var tm c08Timers
-	var queries atomic.Int64
-	for _, present := range []bool{false, true} {
-		for _, cfg := range cfgs {
-			v := c08Variant{cfg: cfg, present: present}
-			name := fmt.Sprintf("ledger/%s/%s", cfg.Name, map[bool]string{false: "absent", true: "present"}[present])
+	var skipped []string
+explore:
+	for _, e := range plan {
+		for _, present := range e.present {
+			v := c08Variant{cfg: e.cfg, present: present, alpha: e.alpha, mask: e.mask, policy: e.policy}
+			name := c08NewSys(w, v, r, &tm).name()
+			if r.WasCapped() || r.OutOfTime() {
+				skipped = append(skipped, fmt.Sprintf("%s(depth %d)", name, e.depth))
+				continue
+			}
 			q := &ve.Seq[*c08Sys]{
-				Name:   name,
-				NumOps: c08NumOps,
-				OpName: func(op int) string { return c08OpNames[op] },
-				New:    func() *c08Sys { return c08NewSys(w, v, &tm) },
-				Close: func(s *c08Sys) {
-					if s.h != nil {
-						queries.Add(s.h.queries)
-						s.h.Close()
-					}
-				},
-				Apply: func(s *c08Sys, op int) (bool, error) { return s.apply(op, &tm) },
-				Key:   func(s *c08Sys) string { return s.key() },
+				Name:      name,
+				NumOps:    c08NumOps,
+				OpName:    func(op int) string { return c08OpNames[op] },
+				New:       func() *c08Sys { return c08NewSys(w, v, r, &tm) },
+				Close:     func(s *c08Sys) { s.close() },
+				Apply:     func(s *c08Sys, op int) (bool, error) { return s.apply(op) },
+				Invariant: func(s *c08Sys) error { return s.materialize() },
+				Key:       func(s *c08Sys) string { return s.key() },
+				Final:     func(s *c08Sys) error { return s.final() },
 				Observe: func(s *c08Sys) string {
-					if s.h == nil {
-						return "bad"
-					}
-					return fmt.Sprintf("latest%d-db%d-u%v-o%v", s.h.Latest(), s.h.dbRound, s.userPresent(), s.ownAsset != 0)
+					return fmt.Sprintf("latest%d-db%d-u%v-o%v", s.shLatest, s.shDB, s.shUser, s.shOwn)
 				},
-				MaxDepth: depth,
+				MaxDepth: e.depth,
 			}
 			res := q.Explore(r)
 			cov.AddSeq(res)
 			if !res.Exhaustive {
 				cov.Exhaustive = false
 			}
-			if r.Violations() > 0 || r.WasCapped() {
-				break
+			if res.DepthCompleted > maxDepth {
+				maxDepth = res.DepthCompleted
+			}
+			if r.Violations() > 0 {
+				break explore
 			}
 		}
-		if r.Violations() > 0 || r.WasCapped() {
-			break
-		}
 	}
+	if len(skipped) > 0 {
+		r.Note("time budget exhausted; explorations not run: %v", skipped)
+	}
+	depth := maxDepth
 	ms := func(ns, n int64) float64 {
 		if n == 0 {
 			return 0
 		}
 		return float64(ns) / float64(n) / 1e6
 	}
-	r.Set("lookups_compared", queries.Load())
+	r.Set("lookups_compared", tm.queries.Load())
 	r.Note("timing (not part of the verdict): new+setup %.2f ms x %d, op %.2f ms x %d, sweep %.2f ms x %d",
 		ms(tm.newNs.Load(), tm.news.Load()), tm.news.Load(), ms(tm.opNs.Load(), tm.ops.Load()), tm.ops.Load(), ms(tm.sweepNs.Load(), tm.sweeps.Load()), tm.sweeps.Load())
 	cov.Rule = fmt.Sprintf("BFS over all sequences (depth <= %d) of 7 block patterns (create/modify/delete user resources: account, asset holding, app local state, box; create/modify/destroy owner resources: asset params, app params, creators; unrelated payment), flush-one-round, flush-max, reloadLedger; x {LRU on,off} x {MaxAcctLookback 0,2} x {resources initially absent, present}; after every step every account/asset/app/creator/kv lookup for every known address/id/key at every round 0..latest+1 is compared with the fold of the evaluator's deltas", depth)
